@@ -432,8 +432,8 @@ EvalD(t, env) ==
                                 FnType(t.op, <<x.t>>, nargs)))
       [] t.k = "in" ->
             LET x == EvalD(t.x, env)
-            IN  IF IsE(x) THEN x ELSE IF IsDS(x) THEN InDS(t.neg, x, Rng(t.set))
-                ELSE Sc(IF t.neg THEN NotInV(x.v, Rng(t.set)) ELSE InV(x.v, Rng(t.set)), "Boolean")
+            IN  IF IsE(x) THEN x ELSE IF IsDS(x) THEN InDS(t.neg, x, InSet(t, env))
+                ELSE Sc(IF t.neg THEN NotInV(x.v, InSet(t, env)) ELSE InV(x.v, InSet(t, env)), "Boolean")
       [] t.k = "if" ->      \* scalar-level conditional, or dataset-level when the condition is a dataset
             LET c == EvalD(t.c, env) a == EvalD(t.t, env) b == EvalD(t.e, env)
             IN  IF IsE(c) THEN c
@@ -483,6 +483,6 @@ EvalD(t, env) ==
                        [] t.op = "setdiff" -> SetDiffDS(xs[1], xs[2])
                        [] t.op = "symdiff" -> SymDiffDS(xs[1], xs[2])
 
-\* environment from its JSON form: datasets {comps, rows} or scalars {v, t}
+\* environment from its JSON form: datasets {comps, rows}, scalars {v, t} or value domains {set, t}
 EnvOf(j) == [n \in DOMAIN j |-> IF "comps" \in DOMAIN j[n] THEN DS(j[n]) ELSE j[n]]
 =============================================================================
